@@ -56,18 +56,19 @@ type auditItem struct {
 }
 
 type output struct {
-	YieldSites int         `json:"yield_sites"`
-	MapSites   int         `json:"map_sites"`
-	Globals    int         `json:"globals"`
-	SyncSeams  int         `json:"sync_seams"`
-	Packages   []string    `json:"packages"`
+	YieldSites  int      `json:"yield_sites"`
+	MapSites    int      `json:"map_sites"`
+	Globals     int      `json:"globals"`
+	SyncSeams   int      `json:"sync_seams"`
+	WriteYields int      `json:"write_yield_sites"`
+	Packages    []string `json:"packages"`
 	// SyncPkgs: packages (relative to the module) that use synchronisation
 	// primitives or atomics: writes to their package-level state may be
 	// synchronised, so I-GLOBAL does not treat them as races.
-	SyncPkgs []string `json:"sync_pkgs"`
-	Audit      []auditItem `json:"audit"`
-	Yields     []site      `json:"-"`
-	Maps       []site      `json:"maps"`
+	SyncPkgs []string    `json:"sync_pkgs"`
+	Audit    []auditItem `json:"audit"`
+	Yields   []site      `json:"-"`
+	Maps     []site      `json:"maps"`
 }
 
 func excluded(pkgPath string) bool {
@@ -204,6 +205,12 @@ func main() {
 							out.Audit = append(out.Audit, auditItem{"chan-range", posOf(x.Pos()), "range over channel"})
 						}
 					}
+				case *ast.BlockStmt:
+					writeYields(x.List, tf, &patches, &yieldID, &out, posOf, curFunc, &usesSimrt)
+				case *ast.CaseClause:
+					writeYields(x.Body, tf, &patches, &yieldID, &out, posOf, curFunc, &usesSimrt)
+				case *ast.CommClause:
+					writeYields(x.Body, tf, &patches, &yieldID, &out, posOf, curFunc, &usesSimrt)
 				case *ast.GoStmt:
 					out.Audit = append(out.Audit, auditItem{"go", posOf(x.Pos()), "go statement"})
 				case *ast.SelectStmt:
@@ -324,6 +331,47 @@ func main() {
 	}
 	fmt.Fprintf(os.Stderr, "instrument: %d packages, %d yield sites, %d map sites, %d globals, %d sync seams, %d audit items\n",
 		len(out.Packages), yieldID, mapID, out.Globals, out.SyncSeams, len(out.Audit))
+}
+
+// writeYields puts a scheduling point in front of every statement of a block
+// that writes through a selector, an index or a pointer (i.e. possibly into
+// memory shared with another goroutine), so that "write, ..., write back"
+// windows are pre-emptible even when they contain no call and no loop.
+func writeYields(list []ast.Stmt, tf *token.File, patches *[]patch, yieldID *int, out *output,
+	posOf func(token.Pos) string, curFunc func() string, usesSimrt *bool) {
+	nonLocal := func(e ast.Expr) bool {
+		for {
+			switch x := e.(type) {
+			case *ast.ParenExpr:
+				e = x.X
+				continue
+			case *ast.SelectorExpr, *ast.IndexExpr, *ast.StarExpr, *ast.IndexListExpr:
+				return true
+			}
+			return false
+		}
+	}
+	for _, st := range list {
+		hit := false
+		switch x := st.(type) {
+		case *ast.AssignStmt:
+			for _, l := range x.Lhs {
+				if nonLocal(l) {
+					hit = true
+				}
+			}
+		case *ast.IncDecStmt:
+			hit = nonLocal(x.X)
+		}
+		if !hit {
+			continue
+		}
+		*yieldID++
+		*patches = append(*patches, patch{off: tf.Offset(st.Pos()), text: fmt.Sprintf("simrt.Yield(%d);", *yieldID)})
+		out.Yields = append(out.Yields, site{ID: *yieldID, Kind: "write", Pos: posOf(st.Pos()), Func: curFunc()})
+		out.WriteYields++
+		*usesSimrt = true
+	}
 }
 
 func coreType(t types.Type) types.Type {
